@@ -120,6 +120,7 @@ func runC13(p *core.Program, r *core.Report) {
 	r.Rule("C13.perm", "sorting returns the original indices of the sorted (index,value) pairs: one pair per index", 9)
 	r.Rule("C13.filter", "filtering appends get(index[i]) for i ascending", 5)
 	r.Rule("C13.copy-out", "a list hands out its elements as a slice of exactly size elements: never the backing table itself, the whole table appended, or a result sized by the table's length", 3)
+	r.Rule("C13.own-table", "no method of a typed list installs a slice it was handed as its backing table", 5)
 	r.Rule("C13.linked", "linked list insert/unlink keep first/last/size consistent on every path", 5)
 
 	names := append([]string{}, c13Lists...)
@@ -134,6 +135,7 @@ func runC13(p *core.Program, r *core.Report) {
 		}
 		c13Bounds(p, r, t)
 		c13CopyOut(p, r, t)
+		c13OwnTable(p, r, t)
 		c13Sort(p, r, t)
 		c13Filter(p, r, t)
 	}
@@ -2371,5 +2373,65 @@ func c13CopyOut(p *core.Program, r *core.Report, t *types.Named) {
 			bad += ": the result has one element per slot of the table, the size elements of the list followed by the unused and stale slots"
 		}
 		r.Check(bad == "", "C13.copy-out", core.FuncName(fi.Obj), p.Pos(fi.Decl.Pos()), "stops at size", bad)
+	}
+}
+
+// c13OwnTable: a list's backing table is its own. No method installs a slice it was handed as a
+// parameter (or a re-slice of one) as the table: the caller keeps writing to that array, and every
+// other list built from it shares it — the list's contents then change without any operation on it.
+func c13OwnTable(p *core.Program, r *core.Report, t *types.Named) {
+	for _, fi := range p.MethodsOf(t) {
+		if fi.Decl.Body == nil || fi.Decl.Type.Params.NumFields() == 0 {
+			continue
+		}
+		info := fi.Pkg.TypesInfo
+		params := map[types.Object]bool{}
+		hasSlice := false
+		for _, f := range fi.Decl.Type.Params.List {
+			for _, n := range f.Names {
+				if o := info.Defs[n]; o != nil {
+					if _, isSl := o.Type().Underlying().(*types.Slice); isSl {
+						params[o] = true
+						hasSlice = true
+					}
+				}
+			}
+		}
+		if !hasSlice {
+			continue
+		}
+		rn := recvName(fi)
+		bad := ""
+		ast.Inspect(fi.Decl.Body, func(n ast.Node) bool {
+			as, ok := n.(*ast.AssignStmt)
+			if !ok || len(as.Lhs) != len(as.Rhs) {
+				return true
+			}
+			for i, l := range as.Lhs {
+				sel, ok := ast.Unparen(l).(*ast.SelectorExpr)
+				if !ok {
+					continue
+				}
+				if id, ok := ast.Unparen(sel.X).(*ast.Ident); !ok || id.Name != rn {
+					continue
+				}
+				if _, isSl := info.TypeOf(sel).Underlying().(*types.Slice); !isSl {
+					continue
+				}
+				rhs := ast.Unparen(as.Rhs[i])
+				for {
+					if se, ok := rhs.(*ast.SliceExpr); ok {
+						rhs = ast.Unparen(se.X)
+						continue
+					}
+					break
+				}
+				if id, ok := rhs.(*ast.Ident); ok && params[info.ObjectOf(id)] {
+					bad = "installs the caller's slice " + id.Name + " as " + types.ExprString(l) + " at " + p.Pos(as.Pos()) + ": the list shares its storage with the caller (and with any other list built from the same slice), so its contents change without an operation on it"
+				}
+			}
+			return true
+		})
+		r.Check(bad == "", "C13.own-table", core.FuncName(fi.Obj), p.Pos(fi.Decl.Pos()), "elements are copied in, the table stays the list's own", bad)
 	}
 }
